@@ -409,7 +409,9 @@ ReadNextPart:
 			return fmt.Errorf("failed to get content-type from part")
 		}
 		contentType, optional := parseMultiPartHeader(multiPartContentType[0])
-		if strings.EqualFold(contentType, TypeMultipartRelated.String()) {
+		if strings.EqualFold(contentType, TypeMultipartRelated.String()) ||
+			strings.EqualFold(contentType, TypeMultipartAlternative.String()) {
+			// The nested multipart has already been parsed above, it is not a body part itself
 			goto ReadNextPart
 		}
 		part := msg.newPart(ContentType(contentType))
@@ -563,6 +565,19 @@ func parseMultiPartHeader(multiPartHeader string) (header string, optional map[s
 //     returns nil.
 func parseEMLAttachmentEmbed(contentDisposition []string, multiPart *multipart.Part, msg *Msg) error {
 	cdType, optional := parseMultiPartHeader(contentDisposition[0])
+	// parseMultiPartHeader splits at every semicolon, which breaks quoted parameter values that
+	// contain one. Use the stdlib parser if it accepts the header and decode RFC 2047 encoded
+	// file names, which is what Msg writes for non-ASCII file names
+	if mediaType, params, err := mime.ParseMediaType(contentDisposition[0]); err == nil {
+		cdType = mediaType
+		optional = make(map[string]string)
+		if name, ok := params["filename"]; ok {
+			if decoded, derr := new(mime.WordDecoder).DecodeHeader(name); derr == nil {
+				name = decoded
+			}
+			optional["filename"] = `"` + name + `"`
+		}
+	}
 	filename := "generic.attachment"
 	if name, ok := optional["filename"]; ok {
 		// The value is either a quoted-string or a token. Only strip the quotes, if there are any,
